@@ -107,7 +107,7 @@ fn check_rs16(eng: &str, k: usize, r: usize, bytes: usize, seed: u64) -> Result<
 
 /// mode bytes: dense data of an arbitrary even shard size (short final block, long shards): every recovery
 /// byte against G*data with the documented byte placement; two rounds on one (soiled) encoder
-fn check_bytes(refm: &RefModel, eng: &str, high: bool, k: usize, r: usize, bytes: usize, soil: u64, seed: u64) -> Result<u64, (String, String)> {
+fn check_bytes(refm: &RefModel, eng: &str, high: bool, k: usize, r: usize, bytes: usize, soil: u64, seed: u64, shape: &str) -> Result<u64, (String, String)> {
     let kind = if high { Kind::High } else { Kind::Low };
     let mut n = 0u64;
     let res = guard(|| {
@@ -115,7 +115,21 @@ fn check_bytes(refm: &RefModel, eng: &str, high: bool, k: usize, r: usize, bytes
             let mut enc = make_encoder::<E>(kind, k, r, bytes, if soil == 0 { None } else { Some(soil) }).map_err(|e| format!("Err({e:?})"))?;
             let mut out: Vec<(Vec<Vec<u8>>, Vec<Vec<u8>>)> = Vec::new();
             for round in 0..2u64 {
-                let originals = data_dense(k, bytes, seed ^ (round * 0x9e37) ^ bytes as u64);
+                let mut originals = data_dense(k, bytes, seed ^ (round * 0x9e37) ^ bytes as u64);
+                // data shapes besides dense: "same" = k identical shards, "unit<i>" = only original i non-zero
+                if shape == "same" {
+                    let first = originals[0].clone();
+                    for o in originals.iter_mut() {
+                        o.copy_from_slice(&first);
+                    }
+                } else if let Some(i) = shape.strip_prefix("unit") {
+                    let i: usize = i.parse().expect("unit index");
+                    for (j, o) in originals.iter_mut().enumerate() {
+                        if j != i {
+                            o.fill(0);
+                        }
+                    }
+                }
                 for o in &originals {
                     enc.add(o).map_err(|e| format!("Err({e:?})"))?;
                 }
@@ -152,7 +166,7 @@ fn run_case(refm: &RefModel, kv: &Kv) -> Result<u64, (String, String)> {
     match kv.str("mode") {
         "basis" => check_basis(refm, eng, kv.str("rate") == "high", k, r, kv.u64("soil")),
         "unit" => check_unit(refm, eng, kv.str("rate") == "high", k, r, kv.usize("cols")),
-        "bytes" => check_bytes(refm, eng, kv.str("rate") == "high", k, r, kv.usize("bytes"), kv.u64("soil"), kv.u64("seed")),
+        "bytes" => check_bytes(refm, eng, kv.str("rate") == "high", k, r, kv.usize("bytes"), kv.u64("soil"), kv.u64("seed"), kv.opt("shape").unwrap_or("dense")),
         "rs16" => check_rs16(eng, k, r, kv.usize("bytes"), kv.u64("seed")),
         m => panic!("mode {m}"),
     }
@@ -237,6 +251,25 @@ pub fn run(ctx: &Ctx, rep: &mut Report) {
             }
         }
     }
+    // sparse and repetitive data (short cuts that depend on the data): identical shards, one non-zero shard
+    for k in 1..=bmax.min(6) {
+        for r in 1..=bmax.min(6) {
+            for rate in ["high", "low"] {
+                for eng in engines_all() {
+                    if eng == "default" {
+                        continue;
+                    }
+                    let mut shapes: Vec<String> = vec!["same".into()];
+                    shapes.extend((0..k).map(|i| format!("unit{i}")));
+                    for (si, shape) in shapes.iter().enumerate() {
+                        let bytes = [64usize, 130, 192][(k + r + si) % 3];
+                        cases.push(Kv::new().with("mode", "bytes").with("eng", eng).with("rate", rate).with("k", k).with("r", r).with("bytes", bytes).with("soil", 0).with("seed", seed).with("shape", shape.as_str()));
+                    }
+                }
+            }
+        }
+    }
+    rep.bound("bytes_shapes", J::s("[1..6]^2 x {high,low} x every engine: k identical shards and every single-non-zero-shard data set (shard sizes 64/130/192 in rotation)"));
     for (k, r) in [(1usize, 1usize), (2, 3), (3, 2), (5, 3), (3, 5), (4, 4), (17, 5), (5, 17)] {
         for rate in ["high", "low"] {
             for &bytes in &long_sizes {
@@ -314,7 +347,7 @@ pub fn run(ctx: &Ctx, rep: &mut Report) {
                 rep.transitions += (k + 1) as u64;
             }
             Err((exp, obs)) => rep.violation(Violation {
-                key: format!("{}-{}-{}-k{}r{}{}", kv.str("mode"), kv.opt("rate").unwrap_or("def"), kv.str("eng"), k, r, kv.opt("bytes").map(|b| format!("-b{b}")).unwrap_or_default()),
+                key: format!("{}-{}-{}-k{}r{}{}", kv.str("mode"), kv.opt("rate").unwrap_or("def"), kv.str("eng"), k, r, format!("{}{}", kv.opt("bytes").map(|b| format!("-b{b}")).unwrap_or_default(), kv.opt("shape").map(|b| format!("-{b}")).unwrap_or_default())),
                 case: kv.dump(),
                 expected: exp,
                 observed: obs,
